@@ -1356,6 +1356,7 @@ func oracleLedger(o *e2eOutcome, v vfn) {
 					}
 				}
 			}
+			sentLater := resent // transmitted in a later request at all: not abandoned
 			if resent {
 				// the same version can be queued several times (touched between scans): each
 				// queue entry is sent once in its own right.  A part counts as sent AGAIN only
@@ -1366,18 +1367,30 @@ func oracleLedger(o *e2eOutcome, v vfn) {
 						pushes++
 					}
 				}
-				for _, q := range o.reqs {
+				// a transmission that the receiver did not report as recorded (the request
+				// failed before this part, or was cut off with nothing on record) entitles
+				// the sender to one more: the retry of THAT request is not a second sending
+				// of what this request got recorded.  The last transmission entitles nothing
+				unrecorded, lastUnrecorded := 0, false
+				for qi, q := range o.reqs {
 					if q.Class != "data" || q.Gen != r.Gen {
 						continue
 					}
-					for _, qp := range q.Parts {
+					for qpi, qp := range q.Parts {
 						if qp.Name == p.Name && qp.Hash == p.Hash && qp.Beg < p.End && p.Beg < qp.End {
 							carried++
+							lastUnrecorded = !reportedRecorded(o.reqs, qi, qpi)
+							if lastUnrecorded {
+								unrecorded++
+							}
 							break
 						}
 					}
 				}
-				if carried <= pushes {
+				if lastUnrecorded {
+					unrecorded--
+				}
+				if carried <= pushes+unrecorded {
 					resent = false
 				}
 			}
@@ -1410,7 +1423,7 @@ func oracleLedger(o *e2eOutcome, v vfn) {
 					released = true
 				}
 			}
-			if pi >= nrec && !resent && !changed && !released && o.terminated && !senderCrashedAfter(o, r) {
+			if pi >= nrec && !sentLater && !changed && !released && o.terminated && !senderCrashedAfter(o, r) {
 				v("C08", "remainder-sent-again", "part-abandoned", fmt.Sprintf("request #%d (%s) failed with %d leading parts reported as recorded; part %d %s%s was never sent again", r.ID, r.Fault, nrec, pi, p.Name, fmtIv(p.Beg, p.End)))
 			}
 			if pi < nrec && resent && !changed && !failedValidation(o, p.Name) {
@@ -1422,6 +1435,25 @@ func oracleLedger(o *e2eOutcome, v vfn) {
 			}
 		}
 	}
+}
+
+// reportedRecorded: did the sender learn that part pi of data request all[i] is on record
+// at the receiver (the request succeeded, or the part lies within the count of leading
+// parts in its partial-content answer or in the answer to the recovery request for it)?
+func reportedRecorded(all []*wRequest, i, pi int) bool {
+	r := all[i]
+	if r.Err == "" {
+		return true
+	}
+	if r.N > 0 {
+		return pi < r.N
+	}
+	for _, q := range all[i+1:] {
+		if q.Class == "recovery" && q.Gen == r.Gen && q.Err == "" && sameParts(q.Parts, r.Parts) {
+			return pi < q.N
+		}
+	}
+	return false
 }
 
 func sameParts(a, b []partRec) bool {
